@@ -37,7 +37,8 @@ func cmdPlant(args []string) {
 	for _, s := range []string{"my_host.example.com", "_host.example.com", "host_.example.com", "a.b_c.example.com", "ex_ample.com", "-a.example.com", "a-.example.com", "ab--cd.example.com",
 		"xn--zz.example.com", "xn--bcher-kva.example.com", "*.example.com", "*.*.example.com", "www.*.example.com", "*.com", "*", "example.com.", ".example.com", "a..example.com",
 		" example.com", "example.com ", "EXAMPLE.COM", "Example.Com", "192.0.2.1", "10.0.0.1", "2001:db8::1", "localhost", "host.internal", "host.local", "host.onion",
-		strings.Repeat("l", 64) + ".example.com", strings.Repeat("a.", 130) + "example.com", "caf\xc3\xa9.example.com", "exa\x00mple.com", "exa mple.com", "user@example.com", "http://example.com/", ""} {
+		strings.Repeat("l", 64) + ".example.com", strings.Repeat("a.", 130) + "example.com", "caf\xc3\xa9.example.com", "exa\x00mple.com", "exa mple.com", "user@example.com", "http://example.com/", "",
+		"k12.ma.us", "pvt.k12.ma.us", "co.uk", "com.au", "blogspot.com", "s3.amazonaws.com", "gov.uk", "kawasaki.jp", "city.kawasaki.jp", "ck", "www.ck"} {
 		addName(s)
 	}
 	sort.Strings(vocab)
@@ -72,7 +73,7 @@ func cmdPlant(args []string) {
 			if (vi+ti)%stride != int(seed)%stride && len(name) > 0 && !strings.ContainsAny(name, "_*- ") {
 				continue // quick: every odd-looking name, a rotating third of the plain ones
 			}
-			for form := 0; form < 3; form++ {
+			for form := 0; form < 4; form++ {
 				v := tp.Clone()
 				good := forge.GN(forge.GNDNS, []byte("good.example.com"))
 				probe := forge.GN(forge.GNDNS, []byte(name))
@@ -83,8 +84,12 @@ func cmdPlant(args []string) {
 					names = []*forge.Node{good}
 				case 1:
 					names = []*forge.Node{probe}
-				default:
+				case 2:
 					cn, names = "good.example.com", []*forge.Node{good, probe}
+				default:
+					// the probe in an issuerAltName extension (the IAN copies of the name rules), the SAN left clean
+					cn, names = "good.example.com", []*forge.Node{good}
+					v.SetExt(forge.OIDIAN, forge.MakeExt(forge.OIDIANNode(), false, forge.GeneralNames(probe).Bytes()))
 				}
 				keepOthers := []*forge.Node{}
 				for _, x := range v.NamesOfExt(forge.OIDSAN) {
